@@ -56,6 +56,7 @@ type Exchange struct {
 	GateTimeout bool            `json:"gate_timeout,omitempty"`
 	ChunkAt     []time.Duration `json:"chunk_at,omitempty"`
 	Attempt     int             `json:"attempt"` // a-th exchange with this nonce on this backend
+	lastWriteN  int
 }
 
 type Backend struct {
@@ -342,7 +343,9 @@ func (b *Backend) fire(c *Conn, ex *Exchange, f *Fault) bool {
 }
 
 func (b *Backend) write(c *Conn, ex *Exchange, p []byte) bool {
-	if _, err := c.Write(p); err != nil {
+	n, err := c.Write(p)
+	ex.lastWriteN = n
+	if err != nil {
 		ex.WriteErr = err.Error()
 		if ex.PeerGoneAt == 0 {
 			ex.PeerGoneAt = b.sim.Now()
@@ -493,6 +496,13 @@ func (b *Backend) respond(c *Conn, ex *Exchange, r *Resp) bool {
 		}
 		ex.ChunkAt = append(ex.ChunkAt, b.sim.Now())
 		if !b.write(c, ex, w) {
+			// part of the piece may be on the wire already (a full send window, then the peer went away)
+			if k := ex.lastWriteN - (len(w) - len(p) - map[bool]int{true: 2, false: 0}[framing == "chunked"]); k > 0 {
+				if k > len(p) {
+					k = len(p)
+				}
+				ex.BodyWrote = append(ex.BodyWrote, p[:k]...)
+			}
 			return false
 		}
 		ex.BodyWrote = append(ex.BodyWrote, p...)
